@@ -434,9 +434,20 @@ func RunWithConcurrentUse(ck *Check, c *core.Ctx) {
 		if p == nil {
 			continue
 		}
-		capExec := int64(core.Pick(c, 4000, 40000))
-		table = append(table, freshExplore(c, sub, name, 2, core.Pick(c, 2, 3), capExec))
-		table = append(table, freshExplore(c, sub, name, 3, core.Pick(c, 1, 2), capExec))
+		// the bound is chosen from the size of the panel (scheduling points of one execution, measured
+		// by the bound-0 exploration, which is a function of the code only): executions grow like
+		// points^bound
+		capExec := int64(core.Pick(c, 6000, 60000))
+		probe := freshExplore(c, sub, name, 2, 0, capExec)
+		b2, b3 := core.Pick(c, 2, 3), core.Pick(c, 1, 2)
+		switch {
+		case probe.MaxPoints > 120:
+			b2, b3 = 1, core.Pick(c, 0, 1)
+		case probe.MaxPoints > 30:
+			b2, b3 = core.Pick(c, 1, 2), core.Pick(c, 0, 1)
+		}
+		table = append(table, freshExplore(c, sub, name, 2, b2, capExec))
+		table = append(table, freshExplore(c, sub, name, 3, b3, capExec))
 	}
 	if len(table) > 0 {
 		c.Note("concurrent_use_fresh_process_exploration", table)
